@@ -3,8 +3,10 @@
 (git apply, run, git checkout), update meta.json (checks_against_patched_repo, caught_by_checks) and print a table."""
 import subprocess, sys, os, json, glob
 env = dict(os.environ, GOFLAGS='-mod=mod', GOPROXY='off', GOSUMDB='off', GOTOOLCHAIN='local'); env.pop('GOWORK', None)
-env['GZV_EVIDENCE_DIR'] = '/tmp/gzv-evidence-scratch'
-if subprocess.run(['git', 'diff', '--quiet'], cwd='/repo').returncode != 0:
+REPO = os.environ.get('GZV_REPO', '/repo')  # a scratch worktree can stand in for /repo (development only)
+env['GZV_REPO'] = REPO
+env['GZV_EVIDENCE_DIR'] = os.environ.get('GZV_EVIDENCE_DIR', '/tmp/gzv-evidence-scratch')
+if subprocess.run(['git', 'diff', '--quiet'], cwd=REPO).returncode != 0:
     print('/repo dirty'); sys.exit(2)
 dirs = sorted(glob.glob('/verif/seeded/*/'))
 if len(sys.argv) > 1:
@@ -15,26 +17,26 @@ for d in dirs:
     meta = json.load(open(d + 'meta.json'))
     prop = meta['property']
     props = sorted(set([prop] + list(meta.get('checks_against_patched_repo', {}).keys())))
-    r = subprocess.run(['git', 'apply', '--check', d + 'patch.diff'], cwd='/repo', capture_output=True, text=True)
+    r = subprocess.run(['git', 'apply', '--check', d + 'patch.diff'], cwd=REPO, capture_output=True, text=True)
     if r.returncode != 0:
         meta['applies_to_repo_head'] = False
         json.dump(meta, open(d + 'meta.json', 'w'), indent=1)
         rows.append((sid, 'does not apply to current /repo HEAD (superseded by a fix)', ''))
         continue
     meta['applies_to_repo_head'] = True
-    subprocess.run(['git', 'apply', d + 'patch.diff'], cwd='/repo', check=True)
+    subprocess.run(['git', 'apply', d + 'patch.diff'], cwd=REPO, check=True)
     checks = {}
     try:
         for p in props:
-            rr = subprocess.run(['bin/gzverify', '-prop', p, '-tier', 'quick'], cwd='/verif', env=env, capture_output=True, text=True)
+            rr = subprocess.run([os.environ.get('GZV_BIN', 'bin/gzverify'), '-prop', p, '-tier', 'quick'], cwd='/verif', env=env, capture_output=True, text=True)
             lines = [l for l in rr.stdout.splitlines() if not l.startswith('    ') and (' violated [' in l or ' undecided [' in l)]
             checks[p] = {'exit': rr.returncode, 'reports': [l[:600] for l in lines[:4]]}
     finally:
-        subprocess.run(['git', 'checkout', '--', '.'], cwd='/repo')
+        subprocess.run(['git', 'checkout', '--', '.'], cwd=REPO)
     caught = any(v['exit'] == 1 for v in checks.values())
     meta['checks_against_patched_repo'] = checks
     meta['caught_by_checks'] = caught
-    meta['repo_head'] = subprocess.check_output(['git', 'rev-parse', '--short', 'HEAD'], cwd='/repo', text=True).strip()
+    meta['repo_head'] = subprocess.check_output(['git', 'rev-parse', '--short', 'HEAD'], cwd=REPO, text=True).strip()
     json.dump(meta, open(d + 'meta.json', 'w'), indent=1)
     rule = ''
     for v in checks.values():
